@@ -1,7 +1,7 @@
 (* C09 — property theorems only. Each is closed by `exact <lemma>` and followed by Print Assumptions. *)
 From Coq Require Import NArith List Bool.
 From GeosV.Lib Require Import Bytes.
-From GeosV.C09 Require Import WKBDefs WKBProofs.
+From GeosV.C09 Require Import WKBDefs WKBProofs WKBExpect.
 Import ListNotations.
 Local Open Scope N_scope.
 
@@ -12,6 +12,59 @@ Local Open Scope N_scope.
 Theorem C09_wkb_roundtrip : forall c g rest, wf g = true -> wkb_read (wkb_write c g ++ rest) = Ok (expect c g, rest).
 Proof. exact wkb_roundtrip. Qed.
 Print Assumptions C09_wkb_roundtrip.
+
+(* what `expect` is on regular trees (one dimensionality per polygon / compound curve, canonical empty surfaces, sub-curve SRIDs 0,
+   element SRIDs = the collection's): exactly what the property text promises *)
+Theorem C09_expect_regular : forall c g, wf g = true -> regular g = true -> expect c g = ideal c g.
+Proof. exact expect_regular. Qed.
+Print Assumptions C09_expect_regular.
+(* ... so with four output dimensions, extended flavour and SRID the cycle is the identity up to the two documented exceptions
+   (ideal_shape: stand-alone linear rings become line strings, NaN-XY points become the empty point) *)
+Theorem C09_wkb_identity : forall c g rest, wf g = true -> regular g = true ->
+  c_dim c = D4 -> c_fl c = Ext -> c_srid c = true ->
+  wkb_read (wkb_write c g ++ rest) = Ok (ideal_shape g, rest).
+Proof. exact wkb_identity. Qed.
+Print Assumptions C09_wkb_identity.
+(* ... and in every other configuration it is the input with exactly the excess ordinates dropped and, unless extended+SRID, the SRID cleared *)
+Theorem C09_wkb_drop : forall c g rest, wf g = true -> regular g = true ->
+  wkb_read (wkb_write c g ++ rest)
+  = Ok (ideal_shape (drop_dims (c_dim c) (if c_srid c && is_ext (c_fl c) then g else clear_srid g)), rest).
+Proof. exact wkb_drop. Qed.
+Print Assumptions C09_wkb_drop.
+
+(* re-writing the re-read tree reproduces the bytes (for every tree whose NaN-XY points are stored with canonical NaNs) *)
+Theorem C09_wkb_rewrite_fixpoint : forall c g, wf g = true -> nan_canon g = true -> wkb_write c (expect c g) = wkb_write c g.
+Proof. exact wkb_rewrite_fixpoint. Qed.
+Print Assumptions C09_wkb_rewrite_fixpoint.
+(* ... and not otherwise: POINT Z (NaN NaN 5) re-reads as POINT Z EMPTY whose encoding has a NaN Z (known finding class nan-point-rewrite) *)
+Theorem C09_wkb_rewrite_fixpoint_refuted :
+  wf nan_point_witness = true /\
+  wkb_write (mkCfg LE Ext D4 false) (expect (mkCfg LE Ext D4 false) nan_point_witness) <> wkb_write (mkCfg LE Ext D4 false) nan_point_witness.
+Proof. exact wkb_rewrite_fixpoint_refuted. Qed.
+Print Assumptions C09_wkb_rewrite_fixpoint_refuted.
+
+(* the literal property text ("identical type tree, identical Z/M flags, SRID preserved", "every geometry") fails on the faithful model
+   outside the regular trees; one witness per class of known_findings.json *)
+Theorem C09_identity_refuted_mixed_dims :
+  let g := GPoly 0 ring_xyz [ring_xy] in wf g = true /\ expect cfg4 g <> ideal_shape g /\ regular g = false.
+Proof. exact identity_refuted_mixed_dims. Qed.
+Print Assumptions C09_identity_refuted_mixed_dims.
+Theorem C09_identity_refuted_empty_surface :
+  let g := GPoly 0 (empty_seq false false) [empty_seq false false] in
+  let g2 := GCurvePoly 0 (GSimple SCirc 0 (empty_seq false false)) [] in
+  wf g = true /\ expect cfg4 g <> ideal_shape g /\ wf g2 = true /\ expect cfg4 g2 <> ideal_shape g2.
+Proof. exact identity_refuted_empty_surface. Qed.
+Print Assumptions C09_identity_refuted_empty_surface.
+Theorem C09_identity_refuted_sub_srid :
+  let g := GCompound 7 [(SLine, 7, mkSeq false false [mkCoord 0 0 NAN64 NAN64; mkCoord w1 w1 NAN64 NAN64])] in
+  wf g = true /\ expect cfg4 g <> ideal_shape g.
+Proof. exact identity_refuted_sub_srid. Qed.
+Print Assumptions C09_identity_refuted_sub_srid.
+Theorem C09_own_output_rejected_witness :
+  let g := GCompound 0 [(SLine, 0, empty_seq false false)] in
+  wf g = false /\ wkb_read (wkb_write cfg4 g) = Err EMinMem.
+Proof. exact own_output_rejected_witness. Qed.
+Print Assumptions C09_own_output_rejected_witness.
 
 (* the same through HEX text, upper, lower or mixed case *)
 Theorem C09_hex_roundtrip : forall c g s, map upper s = hex_write c g -> wf g = true -> hex_read s = Ok (expect c g, []).
@@ -58,7 +111,7 @@ Definition ex_geom : geom :=
       GColl CMSurf 4326 [GPoly 4326 ex_ring [empty_seq true true]; GCurvePoly 4326 (GSimple SCirc 0 (mkSeq true true [mkCoord 0 0 1 2; mkCoord 4607182418800017408 0 3 4; mkCoord 0 0 5 6])) []];
       GCompound 4326 [(SLine, 0, mkSeq true true [mkCoord 0 0 1 2; mkCoord 4607182418800017408 0 3 4]); (SCirc, 0, mkSeq true true [mkCoord 4607182418800017408 0 3 4; mkCoord 0 0 1 2; mkCoord 0 4607182418800017408 5 6])];
       GColl CMLine 4326 []; GColl CGC 4326 [GColl CMPoint 4326 [GPoint 4326 (empty_seq true false)]] ].
-Example ex_wf : wf ex_geom = true. Proof. vm_compute. reflexivity. Qed.
+Example ex_wf : wf ex_geom = true /\ regular ex_geom = true /\ nan_canon ex_geom = true. Proof. vm_compute. auto. Qed.
 Example ex_cycle_identity : wkb_read (wkb_write (mkCfg BE Ext D4 true) ex_geom) = Ok (ex_geom, []).
 Proof. vm_compute. reflexivity. Qed.
 Example ex_cycle_iso3 : exists g', wkb_read (wkb_write (mkCfg LE Iso D3 true) ex_geom) = Ok (g', []) /\ g' <> ex_geom /\ g' = expect (mkCfg LE Iso D3 true) ex_geom.
